@@ -171,7 +171,11 @@ def sample_level(ctx, n_cases):
             continue
         names, pidx = plane_names(rng)
         refine = int([0, 0, 1, 3, 10][int(rng.integers(5))])
-        dd = [(0.0, 0.0), (1e-9, 1e-12)][int(rng.integers(2))]
+        # de-duplication tolerances: none, the defaults, and sizeable ones (point distance in the section plane / time) so that the
+        # documented exception is actually exercised: a crossing may be missing only if it is within them of the previously kept hit
+        dd = [(0.0, 0.0), (1e-9, 1e-12), (0.0, float(10.0 ** rng.uniform(-2, -0.5))), (float(10.0 ** rng.uniform(-2.5, -1)), 0.0)][int(rng.integers(4))]
+        if dd[0] > 1e-6 or dd[1] > 1e-6:
+            ctx.count("T1:cases with sizeable de-duplication tolerances")
         max_hits = None if rng.random() < 0.8 else int(rng.integers(1, 4))
         kw = dict(normal=normal, offset=offset, plane_coords=names, interp_kind="linear", segment_refine=refine,
                   tol_on_surface=tol, dedup_time_tol=dd[0], dedup_point_tol=dd[1], max_hits_per_traj=max_hits,
